@@ -207,6 +207,14 @@ def run_one(prog: dict) -> dict:
                                         "what": f"{name}: returned shape {g.shape}, declared "
                                                 f"{shape}"})
                 continue
+            # the generated code computes with NumPy, so a faithful translation returns
+            # the dtype NumPy returns for the program itself (not necessarily pytato's
+            # declared dtype, where the two are known to differ)
+            if g.dtype != np.asarray(ref[name]).dtype and g.dtype != dtype:
+                res["problems"].append({"clause": "returned_dtype", "exc": "",
+                                        "what": f"{name}: generated code returns {g.dtype}, "
+                                                f"NumPy computes {np.asarray(ref[name]).dtype} "
+                                                f"(declared {dtype})"})
             msg = runprog.compare(g, ref[name], dtype, scale, single)
             res["compared"] += 1
             if msg:
@@ -286,6 +294,10 @@ def main(tier: str, only: list[dict] | None = None) -> int:
                                "what": pr["what"][:70],
                                "has_reshape_F": any(c["op"] == "reshape" and c.get("order") == "F"
                                                     for c in by_id[r["id"]]["calls"]),
+                               "sub_with_np_scalar": any(
+                                   c["op"] == "sub" and any(isinstance(c.get(k), dict)
+                                                            and "np" in c[k] for k in "ab")
+                                   for c in by_id[r["id"]]["calls"]),
                                "has_prod": any(c["op"] == "prod"
                                                for c in by_id[r["id"]]["calls"])})
     val = tlc.validate_records("PtCheck", "PtCheck.cfg", records, timeout=1500)
